@@ -5,7 +5,7 @@
     and the code's clean-up then runs.  Definitions only; mirrors
 
     - old API: [BaseImage.draw] / inner [render()] ([image/common.py:763-787]),
-      [_display_animated] ([common.py:1318-1364]), [KittyImage._handle_interrupted_draw]
+      [_display_animated] ([common.py:1318-1366]), [KittyImage._handle_interrupted_draw]
       ([kitty.py:381-398]: ST ST + q=1,m=0), [ITerm2Image._handle_interrupted_draw]
       ([iterm2.py:549-561]: ST ST), [BaseImage._handle_interrupted_draw] ([common.py:1607]: nothing);
     - new API: [Renderable.draw] ([renderable/_renderable.py:553-591]), [_animate_]
@@ -57,18 +57,27 @@ Definition handler (s : style) : list tok :=
   | SIterm => [TSt; TSt]                       (* iterm2.py:561 *)
   end.
 
+(** [ctlseqs.cursor_up / cursor_down / cursor_forward]: empty when [n <= 0] *)
+Definition cuu (n : Z) : list tok := if 0 <? n then [TCuu n] else [].
+Definition cud (n : Z) : list tok := if 0 <? n then [TCud n] else [].
+Definition cuf (n : Z) : list tok := if 0 <? n then [TCuf n] else [].
+
+(** [cursor_to_top] of [_display_animated] (common.py:1336): "\r" + cursor_up(lines - 1) *)
+Definition old_ctop (lines : Z) : list tok := [TCR] ++ cuu (lines - 1).
+
 (** the non-empty writes of a fault-free draw() on a terminal, before the clean-up:
-    HIDE_CURSOR (common.py:766); still: the formatted render (:774); animation: the first
-    frame (:1337), then per frame "\r", CURSOR_UP % (lines - 1), the frame (:1349) *)
+    HIDE_CURSOR (common.py:766); still: the formatted render (:774); animation: for the
+    first frame (:1340) and every later one (:1351) [print(frame, cursor_to_top, sep="",
+    end="", flush=True)], i.e. the frame, then "\r" + cursor_up(lines - 1) *)
 Definition old_writes (anim : bool) (lines : Z) (frames : list (list tok)) : list (list tok) :=
   [THide] ::
   match frames with
   | [] => []
-  | F0 :: Fs => if anim then F0 :: flat_map (fun F => [[TCR]; [TCuu (lines - 1)]; F]) Fs else [F0]
+  | F0 :: Fs => if anim then flat_map (fun F => [F; old_ctop lines]) (F0 :: Fs) else [F0]
   end.
 
-(** finally of [_display_animated] (common.py:1364): CURSOR_DOWN % lines *)
-Definition old_anim_tail (anim : bool) (lines : Z) : list tok := if anim then [TCud lines] else [].
+(** finally of [_display_animated] (common.py:1366): cursor_down(lines - 1) *)
+Definition old_anim_tail (anim : bool) (lines : Z) : list tok := if anim then cud (lines - 1) else [].
 (** finally of [render()] (common.py:787): SGR_DEFAULT, SHOW_CURSOR, "\n" *)
 Definition old_final : list tok := [TSgr0; TShow; TLF].
 
@@ -107,11 +116,6 @@ Definition frames_ok (s : style) (frames : list (list tok)) : bool :=
   forallb (forallb (tok_ok s)) frames.
 
 (** ** New API *)
-
-(** [ctlseqs.cursor_up / cursor_down / cursor_forward]: empty when [n <= 0] *)
-Definition cuu (n : Z) : list tok := if 0 <? n then [TCuu n] else [].
-Definition cud (n : Z) : list tok := if 0 <? n then [TCud n] else [].
-Definition cuf (n : Z) : list tok := if 0 <? n then [TCuf n] else [].
 
 (** the writes of a fault-free [Renderable.draw] before its finally block, each tagged
     "is a render-output write" (the ones guarded by the inner try):
